@@ -451,40 +451,126 @@ func ObjectCount(ps PlanSpec) int {
 	return n
 }
 
-// RowCounts is the number of rows per sqlite table that the plan occupies.
-type RowCounts struct {
-	Plans, Blocks, Checks, Sequences, Actions int
-}
-
-// Add adds o to r.
-func (r RowCounts) Add(o RowCounts) RowCounts {
-	return RowCounts{r.Plans + o.Plans, r.Blocks + o.Blocks, r.Checks + o.Checks, r.Sequences + o.Sequences, r.Actions + o.Actions}
-}
-
-// Total is the sum over all tables.
-func (r RowCounts) Total() int { return r.Plans + r.Blocks + r.Checks + r.Sequences + r.Actions }
-
-// RowsOf returns the rows a stored plan of this specification occupies.
-func RowsOf(ps PlanSpec) RowCounts {
-	r := RowCounts{Plans: 1}
-	cnt := func(c *ChecksSpec) {
-		if c != nil {
-			r.Checks++
-			r.Actions += len(c.Actions)
+// IsPristine reports whether the specification carries no execution state at all (what Submit creates: NotStarted, zero
+// times, no reason, no attempts).
+func IsPristine(ps PlanSpec) bool {
+	zero := StateSpec{}
+	if ps.State != zero || ps.Reason != 0 {
+		return false
+	}
+	okChecks := func(c *ChecksSpec) bool {
+		if c == nil {
+			return true
 		}
+		if c.State != zero {
+			return false
+		}
+		for _, a := range c.Actions {
+			if a.State != zero || len(a.Attempts) > 0 {
+				return false
+			}
+		}
+		return true
 	}
 	for _, c := range ps.Checks {
-		cnt(c)
+		if !okChecks(c) {
+			return false
+		}
 	}
 	for _, b := range ps.Blocks {
-		r.Blocks++
-		for _, c := range b.Checks {
-			cnt(c)
+		if b.State != zero {
+			return false
 		}
-		for _, s := range b.Seqs {
-			r.Sequences++
-			r.Actions += len(s.Actions)
+		for _, c := range b.Checks {
+			if !okChecks(c) {
+				return false
+			}
+		}
+		for _, sq := range b.Seqs {
+			if sq.State != zero {
+				return false
+			}
+			for _, a := range sq.Actions {
+				if a.State != zero || len(a.Attempts) > 0 {
+					return false
+				}
+			}
 		}
 	}
-	return r
+	return true
+}
+
+// Pristine returns a deep copy of the specification without any execution state: the same definition as Submit would
+// create it.
+func Pristine(ps PlanSpec) PlanSpec {
+	out := ps
+	out.State, out.Reason = StateSpec{}, 0
+	cpActions := func(as []ActionSpec) []ActionSpec {
+		o := append([]ActionSpec(nil), as...)
+		for i := range o {
+			o[i].State, o[i].Attempts = StateSpec{}, nil
+		}
+		return o
+	}
+	cpChecks := func(c *ChecksSpec) *ChecksSpec {
+		if c == nil {
+			return nil
+		}
+		o := *c
+		o.State = StateSpec{}
+		o.Actions = cpActions(c.Actions)
+		return &o
+	}
+	for i, c := range ps.Checks {
+		out.Checks[i] = cpChecks(c)
+	}
+	out.Blocks = append([]BlockSpec(nil), ps.Blocks...)
+	for bi := range out.Blocks {
+		b := &out.Blocks[bi]
+		b.State = StateSpec{}
+		for i, c := range ps.Blocks[bi].Checks {
+			b.Checks[i] = cpChecks(c)
+		}
+		b.Seqs = append([]SeqSpec(nil), ps.Blocks[bi].Seqs...)
+		for si := range b.Seqs {
+			b.Seqs[si].State = StateSpec{}
+			b.Seqs[si].Actions = cpActions(ps.Blocks[bi].Seqs[si].Actions)
+		}
+	}
+	return out
+}
+
+// UpdateFor returns the Update that brings the object the target addresses from pristine to the state the specification
+// gives it.
+func UpdateFor(ps *PlanSpec, tg Target) Update {
+	u := Update{}
+	switch tg.Kind {
+	case "plan":
+		u.State, u.Reason = ps.State, ps.Reason
+		return u
+	case "block":
+		if tg.Block >= 0 && tg.Block < len(ps.Blocks) {
+			u.State = ps.Blocks[tg.Block].State
+		}
+		return u
+	case "seq":
+		if tg.Block >= 0 && tg.Block < len(ps.Blocks) && tg.Seq >= 0 && tg.Seq < len(ps.Blocks[tg.Block].Seqs) {
+			u.State = ps.Blocks[tg.Block].Seqs[tg.Seq].State
+		}
+		return u
+	case "checks":
+		groups := &ps.Checks
+		if tg.Block >= 0 && tg.Block < len(ps.Blocks) {
+			groups = &ps.Blocks[tg.Block].Checks
+		}
+		if tg.Group >= 0 && tg.Group < 5 && groups[tg.Group] != nil {
+			u.State = groups[tg.Group].State
+		}
+		return u
+	case "action":
+		if a := ResolveActionSpec(ps, tg); a != nil {
+			u.State, u.Attempts = a.State, a.Attempts
+		}
+	}
+	return u
 }
